@@ -208,12 +208,19 @@ func (s *Store) finishSnapshotAsync(snap *jobSnapshot) (uri string, err error) {
 	s.stateMu.Lock()
 
 	// When a new checkpoint is finished, all previous checkpoints are obsolete.
-	if len(s.state.completedSnapshots) > 0 {
-		obsoleteIDs := make([]uint64, 0, len(s.state.completedSnapshots))
-		for _, oldSnap := range s.state.completedSnapshots {
+	// Publications of consecutive checkpoints can finish out of order, so only
+	// older checkpoints are obsolete and a newer checkpoint that was already
+	// published stays the current (last) one.
+	retained := []*jobSnapshot{snap}
+	var obsoleteIDs []uint64
+	for _, oldSnap := range s.state.completedSnapshots {
+		if oldSnap.id < snap.id {
 			obsoleteIDs = append(obsoleteIDs, oldSnap.id)
+		} else {
+			retained = append(retained, oldSnap)
 		}
-
+	}
+	if len(obsoleteIDs) > 0 {
 		// Delete the obsolete checkpoints files
 		go func() {
 			paths := make([]string, 0, len(obsoleteIDs))
@@ -226,7 +233,7 @@ func (s *Store) finishSnapshotAsync(snap *jobSnapshot) (uri string, err error) {
 		}()
 
 		// Notify subscribers of new list of checkpoints to retain (just the completed one)
-		if s.retainedCheckpointsUpdated != nil {
+		if s.retainedCheckpointsUpdated != nil && len(retained) == 1 {
 			go func() {
 				s.retainedCheckpointsUpdated <- []uint64{snap.id}
 			}()
@@ -234,7 +241,7 @@ func (s *Store) finishSnapshotAsync(snap *jobSnapshot) (uri string, err error) {
 	}
 
 	// Reset the completed snapshots to remove obsolete checkpoints
-	s.state.completedSnapshots = []*jobSnapshot{snap}
+	s.state.completedSnapshots = retained
 	s.stateMu.Unlock()
 
 	s.log.Info("store wrote checkpoint", "uri", uri)
